@@ -181,6 +181,7 @@ struct Attrs : Profile {
         MObj  grfile, img, vsobj, vsfield[2], vgobj;
         int32 vsref = 0, vgref = 0;
         int   uniq = 0;
+        int   us_stage = 0; // the unlimited-dimension-with-a-scale scenario (see unlimscale)
         int   fk_stage = 0, fk_sessions = 0; // the unnamed-dimension scenario (see fakedims) and the sessions since it began
         explicit S(Ctx &c) : ctx(c) {}
     };
@@ -530,7 +531,62 @@ struct Attrs : Profile {
                 if (s.sds[i].exists)
                     check_sds_meta(s, i, when);
             check_fakedims(s, when);
+            check_unlimscale(s, when);
         }
+    }
+
+    // A scale on an unlimited dimension: three records, a scale of three values, then the dataset goes on growing and the
+    // scale is left alone.  The scale stays what was set: three values of its type, whatever the dataset holds by now.
+    void check_unlimscale(S &s, const char *when)
+    {
+        if (s.us_stage == 0)
+            return;
+        Ctx  &ctx = s.ctx;
+        int32 ix  = SDnametoindex(s.sd, "us_series");
+        int32 id  = ix < 0 ? FAIL : SDselect(s.sd, ix);
+        if (id == FAIL)
+            ctx.fail("lookup-mismatch", "lookup-mismatch:unlimscale", strf("the dataset with the unlimited dimension is not found (%s)", when));
+        int32   dim = SDgetdimid(id, 0), size = -1, nt = 0, na = 0;
+        char    nm[256] = "";
+        float64 buf[8];
+        for (auto &x : buf)
+            x = -777.0;
+        ctx.st.checks++;
+        if (dim == FAIL || SDdiminfo(dim, nm, &size, &nt, &na) == FAIL || strcmp(nm, "us_time") != 0 || (nt & 0xfff) != DFNT_FLOAT64)
+            ctx.fail("dim-mismatch", "dim-mismatch:unlimscale-info", strf("SDdiminfo of the unlimited dimension: name '%s' type %d (%s)", nm, (int)nt, when));
+        if (SDgetdimscale(dim, buf) == FAIL)
+            ctx.fail("dim-mismatch", "dim-mismatch:unlimscale-read", strf("SDgetdimscale of the unlimited dimension fails with %d records stored (%s): %s", s.us_stage == 1 ? 3 : 5, when, herr().c_str()));
+        for (int q = 0; q < 8; q++)
+            if (buf[q] != (q < 3 ? 0.25 * (q + 1) : -777.0))
+                ctx.fail("dim-mismatch", "dim-mismatch:unlimscale-values", strf("value %d of the scale of the unlimited dimension reads %g (%s)", q, buf[q], when));
+        SDendaccess(id);
+    }
+    void unlimscale(S &s)
+    {
+        Ctx &ctx = s.ctx;
+        open_sd(s);
+        int16 rec[5][2];
+        for (int q = 0; q < 5; q++)
+            rec[q][0] = (int16)(100 * q), rec[q][1] = (int16)(100 * q + 1);
+        if (s.us_stage == 0) {
+            int32   dm[2] = {SD_UNLIMITED, 2}, st[2] = {0, 0}, ed[2] = {3, 2};
+            float64 sc[3] = {0.25, 0.5, 0.75};
+            int32   id    = SDcreate(s.sd, "us_series", DFNT_INT16, 2, dm);
+            if (id == FAIL || SDsetdimname(SDgetdimid(id, 0), "us_time") == FAIL || SDwritedata(id, st, NULL, ed, rec) == FAIL ||
+                SDsetdimscale(SDgetdimid(id, 0), 3, DFNT_FLOAT64, sc) == FAIL || SDendaccess(id) == FAIL)
+                ctx.fail("meta-refused", "meta-refused:unlimscale", strf("setting up the unlimited dimension with a scale failed: %s", herr().c_str()));
+            s.us_stage = 1;
+            ctx.probe("scale-on-unlimited-dimension");
+        }
+        else if (s.us_stage == 1) {
+            int32 ix = SDnametoindex(s.sd, "us_series"), st[2] = {3, 0}, ed[2] = {2, 2};
+            int32 id = ix < 0 ? FAIL : SDselect(s.sd, ix);
+            if (id == FAIL || SDwritedata(id, st, NULL, ed, rec[3]) == FAIL || SDendaccess(id) == FAIL)
+                ctx.fail("meta-refused", "meta-refused:unlimscale", strf("appending records to the dataset with the unlimited dimension failed: %s", herr().c_str()));
+            s.us_stage = 2;
+            ctx.probe("records-appended-behind-the-scale");
+        }
+        check_unlimscale(s, "right after the unlimited-dimension step");
     }
 
     // Unnamed dimensions next to a dimension that two datasets share by name.  Stage 1: dataset fkA (3 x 4) and fkB (3)
@@ -922,6 +978,8 @@ struct Attrs : Profile {
                 // further objects in between: another dataset / vdata that nothing else refers to
                 if (!sd_ro && modn(o.arg(0), 2) == 0)
                     fakedims(s);
+                if (!sd_ro && modn(o.arg(0), 4) == 1)
+                    unlimscale(s);
                 if (!sd_ro) {
                     open_sd(s);
                     int32 dm[1] = {2};
